@@ -76,6 +76,9 @@ func (w *walker) stmt(s ast.Stmt) (terminated bool) {
 	case *ast.AssignStmt:
 		w.exprs(s.Rhs)
 		for i, l := range s.Lhs {
+			if len(s.Lhs) == len(s.Rhs) {
+				w.storeInto(l, s.Rhs[i])
+			}
 			if s.Tok == token.DEFINE {
 				if id, ok := l.(*ast.Ident); ok && len(s.Lhs) == len(s.Rhs) && w.constructs(s.Rhs[i]) {
 					w.fresh[id.Name] = true
@@ -96,6 +99,9 @@ func (w *walker) stmt(s ast.Stmt) (terminated bool) {
 				vs := sp.(*ast.ValueSpec)
 				w.exprs(vs.Values)
 				for i, n := range vs.Names {
+					if len(vs.Values) == len(vs.Names) {
+						w.storeInto(n, vs.Values[i])
+					}
 					if (len(vs.Values) == 0 && vs.Type != nil && w.localStruct(vs.Type)) ||
 						(len(vs.Values) == len(vs.Names) && w.constructs(vs.Values[i])) {
 						w.fresh[n.Name] = true
